@@ -1025,6 +1025,14 @@ def kop_expr(op, args, inline=False, method=False):
     return Expression(op, args, inline=inline, method=method)
 
 
+def _same_literal(a, b) -> bool:
+    """
+    Literals are the same when they have the same type and print the same
+    (1, 1.0 and True differ, as do 0.0 and -0.0; nan is the same as nan).
+    """
+    return (type(a) == type(b)) and (a.__repr__() == b.__repr__())
+
+
 class Value(Term):
     """
     Class for holding constants.
@@ -1057,7 +1065,7 @@ class Value(Term):
         # can't use == as that builds a larger expression
         if not isinstance(other, Value):
             return False
-        return self.value == other.value
+        return _same_literal(self.value, other.value)
 
     def act_on(self, arg, *, expr_walker: ExpressionWalker):
         """
@@ -1118,7 +1126,7 @@ class ListTerm(PreTerm):
             if isinstance(lft, PreTerm):
                 if not lft.is_equal(rgt):
                     return False
-            elif isinstance(rgt, PreTerm) or (lft != rgt):
+            elif isinstance(rgt, PreTerm) or (not _same_literal(lft, rgt)):
                 return False
         return True
 
@@ -1184,7 +1192,15 @@ class DictTerm(PreTerm):
         # can't use == as that builds a larger expression
         if not isinstance(other, DictTerm):
             return False
-        return self.value == other.value
+        if len(self.value) != len(other.value):
+            return False
+        # item order is part of the term: the SQL CASE expression follows it
+        for (k_lft, v_lft), (k_rgt, v_rgt) in zip(
+            self.value.items(), other.value.items()
+        ):
+            if not (_same_literal(k_lft, k_rgt) and _same_literal(v_lft, v_rgt)):
+                return False
+        return True
 
     def act_on(self, arg, *, expr_walker: ExpressionWalker):
         """
